@@ -10,12 +10,6 @@ every `b ≤ 61`, `H = 2^62 - 4` for `b = 62`); they need not be normalised.
 The model follows poulpy after the repairs docs/fixes/01–03 (gap region, rsh_assign, NTT120 fused cross radix).
 
 /- FULL STATEMENTS not (fully) proved; everything below is covered by correspondence + oracle:
-   `lsh_value`: `lshCoef .overwrite b k a res` represents `a·2^k` within one unit (exact with enough
-   limbs), digits balanced — the identification with `normalizeInterCoef … (+k)` is not proved.
-   `fused_value`: the add / sub forms (`lshCoef .add/.sub`, `rshCoef .add/.sub`,
-   `bigNormalizeFusedCol64?/128?`) represent `res ± a·2^off` within one unit.  Proved here only for
-   the forms that are "normalise into a temporary, then limb-wise ±" (`fused_fallback_value`:
-   FFT64 always, NTT120 for different radices) under a no-wrap hypothesis on the limb sums.
    `normalize_cross_value` (offset ≠ 0): for `res_base2k ≠ a_base2k` and an arbitrary offset,
    `normalizeCrossCoef bits rb rs off ab a` is `TorusNear` `a·2^off` and exact with enough limbs.  Proved:
    offset 0 for every pair of radices (`normalize_cross_value_offset0`, `normalize_value_offset0`,
@@ -285,6 +279,65 @@ theorem big_normalize_add_value64 {b : Nat} {H : Int} (hr : HeadRoom 64 b 0 H) (
   have h := normalize_inter_value hr res.length off a ha
   have hnw := no_wrap_of_balanced hb1 hb res _ hres h.2.1
   exact fused_add_fallback_value b res _ h.1.symm hnw.1 (by rw [h.1]; exact h.2.2.1)
+
+/-- **the NTT120 same-radix fused kernels are the fall-back form**: within head-room
+`ntt120_vec_znx_big_normalize_inter_assign::<AddOp/SubOp>` computes `res[j] ± tmp[j]` limb for limb, `tmp`
+being the normalisation into a temporary (so NTT120 and FFT64 agree bit for bit on these operations). -/
+theorem big_normalize_fused128_eq {b : Nat} {H : Int} (hr : HeadRoom 128 b 0 H) (op : AccOp) (off : Int)
+    (a res : List Int) (ha : ∀ x ∈ a, |x| ≤ H) (hres : ∀ r ∈ res, |r| < 2 ^ 63) :
+    bigNormalizeAssignCoef128 op b off b a res
+      = some (List.zipWith (fun r x => op.apply r x) res ((normalizeInterCoef 128 b res.length off a).map w64)) := by
+  unfold bigNormalizeAssignCoef128
+  simp only [if_true]
+  rw [normalizeInterAssignCoef128_eq hr op off a res ha hres]
+
+/-- **NTT120 same-radix `vec_znx_big_normalize_add_assign`**: `res' − res` represents `a·2^off` within one
+unit of the last limb (`i128` accumulator limbs within head-room, `res` limbs up to `2^62`). -/
+theorem big_normalize_add_value128 {b : Nat} {H : Int} (hr : HeadRoom 128 b 0 H) (hb : b ≤ 62) (off : Int)
+    (a res : List Int) (ha : ∀ x ∈ a, |x| ≤ H) (hres : ∀ r ∈ res, |r| ≤ 2 ^ 62) :
+    ∃ res', bigNormalizeAssignCoef128 .add b off b a res = some res' ∧
+      TorusNear (valI b res' - valI b res) (b * res.length) (valI b a * 2 ^ off.toNat) (b * a.length + (-off).toNat) := by
+  have hb1 : 1 ≤ b := by have := hr.hlsh; omega
+  have hres' : ∀ r ∈ res, |r| < 2 ^ 63 := fun r h => by have := hres r h; linarith
+  refine ⟨_, big_normalize_fused128_eq hr .add off a res ha hres', ?_⟩
+  have h := normalize_inter_value hr res.length off a ha
+  have hw : (normalizeInterCoef 128 b res.length off a).map w64 = normalizeInterCoef 128 b res.length off a := by
+    have hwd : ∀ d ∈ normalizeInterCoef 128 b res.length off a, w64 d = id d := by
+      intro d hd
+      have := (h.2.1 d hd).abs_le
+      have h1 : (2 : Int) ^ (b - 1) ≤ 2 ^ 61 := two_pow_le (by omega)
+      exact w64_eq_of_abs_lt (by linarith)
+    rw [List.map_congr_left hwd, List.map_id]
+  rw [hw]
+  have hnw := no_wrap_of_balanced hb1 hb res _ hres h.2.1
+  exact fused_add_fallback_value b res _ h.1.symm hnw.1 (by rw [h.1]; exact h.2.2.1)
+
+/-- **NTT120 same-radix `vec_znx_big_normalize_sub_assign`**: `res' − res` represents `−a·2^off` -/
+theorem big_normalize_sub_value128 {b : Nat} {H : Int} (hr : HeadRoom 128 b 0 H) (hb : b ≤ 62) (off : Int)
+    (a res : List Int) (ha : ∀ x ∈ a, |x| ≤ H) (hres : ∀ r ∈ res, |r| ≤ 2 ^ 62) :
+    ∃ res', bigNormalizeAssignCoef128 .sub b off b a res = some res' ∧
+      TorusNear (valI b res' - valI b res) (b * res.length) (-(valI b a * 2 ^ off.toNat)) (b * a.length + (-off).toNat) := by
+  have hb1 : 1 ≤ b := by have := hr.hlsh; omega
+  have hres' : ∀ r ∈ res, |r| < 2 ^ 63 := fun r h => by have := hres r h; linarith
+  refine ⟨_, big_normalize_fused128_eq hr .sub off a res ha hres', ?_⟩
+  have h := normalize_inter_value hr res.length off a ha
+  have hw : (normalizeInterCoef 128 b res.length off a).map w64 = normalizeInterCoef 128 b res.length off a := by
+    have hwd : ∀ d ∈ normalizeInterCoef 128 b res.length off a, w64 d = id d := by
+      intro d hd
+      have := (h.2.1 d hd).abs_le
+      have h1 : (2 : Int) ^ (b - 1) ≤ 2 ^ 61 := two_pow_le (by omega)
+      exact w64_eq_of_abs_lt (by linarith)
+    rw [List.map_congr_left hwd, List.map_id]
+  rw [hw]
+  have hnw := no_wrap_of_balanced hb1 hb res _ hres h.2.1
+  exact fused_sub_fallback_value b res _ h.1.symm hnw.2 (by rw [h.1]; exact h.2.2.1)
+
+example : ∃ res', bigNormalizeAssignCoef128 .add 20 (-33) 20 [2 ^ 100, -5, 77] [2 ^ 62, -(2 ^ 62)] = some res' ∧
+    TorusNear (valI 20 res' - valI 20 [2 ^ 62, -(2 ^ 62)]) (20 * 2) (valI 20 [2 ^ 100, -5, 77] * 2 ^ (-33 : Int).toNat)
+      (20 * 3 + (33 : Int).toNat) :=
+  big_normalize_add_value128 (b := 20) (H := 2 ^ 120) ⟨by norm_num, by norm_num, by norm_num, by norm_num, by norm_num⟩
+    (by norm_num) (-33) _ _ (by intro x hx; simp at hx; rcases hx with rfl | rfl | rfl <;> norm_num)
+    (by intro x hx; simp at hx; rcases hx with rfl | rfl <;> norm_num)
 
 /-- **`vec_znx_lsh_add_into`**: the fused kernel is the fall-back form, hence `res' − res` represents
 `a·2^k` within one unit of the last limb. -/
